@@ -38,6 +38,7 @@ crate::harnesses! {
 
     /// i8: same, all values.
     /// @prop C17 C08
+    /// @tier thorough
     /// @feat default compact
     /// @fn lexical::to_string [i8]
     #[cfg_attr(kani, kani::unwind(7))]
